@@ -16,7 +16,8 @@ RULE = ("E1: ('core', len, zrun, decl, sink, cmac) = full product of every paylo
         "Bf3File, reads the text back through the same kind of sink and compares comments, tag descriptions, blobs, "
         "declared lengths, flags, and write(read(write(x))) == write(x). Distinct = distinct case vectors; non-trivial = "
         "the writer accepted the file and the reader was run on its output."
-        " Added families: ('repeat', pattern, ...) the SAME component object (or equal copies) at several positions of the component list; the tag alphabet carries the encryption tag id with values that are not the one-byte 02; default-constructed objects are checked to be empty after every history.")
+        " Added families: ('repeat', pattern, ...) the SAME component object (or equal copies) at several positions of the component list; the tag alphabet carries the encryption tag id with values that are not the one-byte 02; default-constructed objects are checked to be empty after every history."
+        ' The text a path write leaves on disk (CRLF line ends) is also read through a stream that does not translate line ends. A plain component carrying tag C2 = 02 is part of the alphabet; its misreading is a recorded finding with its own fingerprint.')
 ASSUMPTIONS = [
     "components are plain (encrypted components are C06); an ENC tag with value 02 on a plain component is part of the alphabet and is a recorded finding (known_findings.json)",
     "a writer that refuses a file within the 255-byte entry limit is reported (the property quantifies over all such files)",
